@@ -37,7 +37,16 @@ const (
 	itDef = iota
 	itAssume
 	itOblig
+	itCover
 )
+
+// Cover is a reachability query: the guard must be satisfiable together with everything assumed
+// so far, otherwise the assumptions are contradictory (vacuity).
+type Cover struct {
+	Name   string
+	Status string // "sat" (reachable), "unsat" (unreachable), "unknown"
+	item   int
+}
 
 type Item struct {
 	Kind   int
@@ -102,6 +111,12 @@ type FnGen struct {
 	qfacts      []QFact
 	autoInvs    map[*ssa.BasicBlock][]autoInv
 
+	ownAllocs map[string][]ownAlloc // type name -> objects allocated here (invariant not yet assumed)
+	dirty     map[string][]Val    // type name -> pre-existing objects whose invariant fields were written
+
+	obNames map[string]int
+	covers  []*Cover
+
 	parent      *FnGen // non-nil while symbolically executing an inlined callee
 	labelPrefix string
 	entryGuard  string
@@ -123,7 +138,7 @@ func NewFnGen(P *Program, S *Specs, E *Effects, fn *ssa.Function) *FnGen {
 		blockGuard: map[*ssa.BasicBlock]string{}, exitState: map[*ssa.BasicBlock]State{},
 		edgeCond: map[[2]*ssa.BasicBlock]string{}, loops: map[*ssa.BasicBlock]*loopInfo{},
 		env: map[string]Val{}, siteNames: map[ssa.Instruction]string{}, callOrd: map[ssa.Instruction]int{},
-		assumptions: map[string]bool{}, usedExtern: map[string]bool{}, defaultPure: map[string]bool{}, autoInvs: map[*ssa.BasicBlock][]autoInv{}, entryGuard: "true", inlined: map[string]bool{}}
+		assumptions: map[string]bool{}, usedExtern: map[string]bool{}, defaultPure: map[string]bool{}, autoInvs: map[*ssa.BasicBlock][]autoInv{}, entryGuard: "true", inlined: map[string]bool{}, ownAllocs: map[string][]ownAlloc{}, dirty: map[string][]Val{}}
 	g.C = S.Contracts[g.name]
 	g.D.ensureLive()
 	return g
@@ -157,7 +172,7 @@ func (g *FnGen) assume(guard, fact, origin string) {
 var strongKinds = map[string]bool{
 	"index": true, "slice": true, "div": true, "extern-requires": true, "panic": true, "requires": true,
 	"ensures": true, "invariant-entry": true, "invariant-preserved": true, "decreases": true,
-	"assert": true, "assigns": true, "make": true, "shift": true, "nil-map": true, "lemma": true,
+	"assert": true, "assigns": true, "make": true, "shift": true, "nil-map": true, "lemma": true, "typeinv": true,
 	"shared-write": true,
 }
 
@@ -172,6 +187,13 @@ func (g *FnGen) oblige(kind, label, guard, cond, desc string, pos token.Pos) *Ob
 	if pos.IsValid() {
 		p := g.P.Prog.Fset.Position(pos)
 		ob.Pos = fmt.Sprintf("%s:%d", strings.TrimPrefix(p.Filename, g.P.RepoDir+"/"), p.Line)
+	}
+	if r.obNames == nil {
+		r.obNames = map[string]int{}
+	}
+	r.obNames[ob.Name]++
+	if n := r.obNames[ob.Name]; n > 1 {
+		ob.Name = fmt.Sprintf("%s~%d", ob.Name, n)
 	}
 	r.items = append(r.items, Item{Kind: itOblig, Guard: guard, Fact: cond, Ob: ob})
 	r.obs = append(r.obs, ob)
@@ -320,7 +342,59 @@ func (g *FnGen) freshVal(prefix string, t types.Type, guard string) Val {
 	v := g.mkVal(g.freshConst(prefix, g.D.sortOf(t)), t)
 	g.assume("true", g.wfFacts(v), "type")
 	g.assume(guard, g.liveFact(g.st, v), "live")
+	g.assumeTypeInv(v, guard)
 	return v
+}
+
+// ---------------------------------------------------------------------------------------
+// Type invariants ("typeinv pkg.T: expr over self"): assumed for every non-nil *T that was not
+// allocated by the function itself; checked at every return for the objects the function
+// allocated or whose invariant fields it wrote.
+
+type ownAlloc struct{ term, guard string }
+
+func typeInvName(t types.Type) string {
+	if t == nil {
+		return ""
+	}
+	p, ok := t.Underlying().(*types.Pointer)
+	if !ok {
+		return ""
+	}
+	if _, ok := p.Elem().Underlying().(*types.Struct); !ok {
+		return ""
+	}
+	return typeName(p.Elem())
+}
+
+func (g *FnGen) typeInvTerm(v Val, st State) string {
+	tn := typeInvName(v.Go)
+	invs := g.S.TypeInvs[tn]
+	if len(invs) == 0 {
+		return ""
+	}
+	var parts []string
+	for _, c := range invs {
+		ctx := &EvalCtx{g: g, env: map[string]Val{"self": v}, st: st, oldSt: st}
+		parts = append(parts, g.evalBool(c.E, ctx))
+	}
+	return and(parts...)
+}
+
+func (g *FnGen) assumeTypeInv(v Val, guard string) {
+	if v.S != sortRef {
+		return
+	}
+	tn := typeInvName(v.Go)
+	if len(g.S.TypeInvs[tn]) == 0 {
+		return
+	}
+	r := g.root()
+	conds := []string{not("(= " + v.T + " nil)")}
+	for _, a := range r.ownAllocs[tn] {
+		conds = append(conds, not("(= "+v.T+" "+a.term+")"))
+	}
+	g.assume(guard, implies(and(conds...), g.typeInvTerm(v, g.st)), "typeinv:"+tn)
 }
 
 // ---------------------------------------------------------------------------------------
@@ -651,4 +725,11 @@ func (g *FnGen) nameSites() {
 			}
 		}
 	}
+}
+
+func (g *FnGen) cover(name, guard string) {
+	r := g.root()
+	c := &Cover{Name: name, item: len(r.items)}
+	r.items = append(r.items, Item{Kind: itCover, Guard: guard, Origin: name})
+	r.covers = append(r.covers, c)
 }
